@@ -23,6 +23,46 @@ NEEDS = {
  "C18": ("C18", "sub-agent", "cooling factor spread over ceil(steps/inner_steps) loops; needs kt_finish, > 1 loop and steps not a multiple of inner_steps"),
  "C19": ("C19", "sub-agent", "step ratio may grow again after it was reduced, uncapped; needs a 100%-rejected loop followed by a loop with acceptances, >= 3 loops"),
  "C20": ("C20", "sub-agent", "outer loop exits early when the step size is at its floor and a whole inner loop was rejected; needs short inner loops in a long quench"),
+ "C01-2a": ("C01", "sub-agent round 2", "MolecularShape2::enclosing_radius taken from the atom furthest from the centre only (distance without its own radius maximised jointly): 3-15% too small for trimers with angle ~60..99 deg; prefilter and shell count then miss back-to-back large discs; needs copies of different orientation"),
+ "C01-2b": ("C01", "sub-agent round 2", "in-cell pair loop folded into the image loop, own image recognised by distance > 0: two different copies at exactly zero distance (site clamped to +-1/2 in mirror/2-fold groups) are skipped, a 100% overlap is scored"),
+ "C02-2a": ("C02", "sub-agent round 2", "polygon area summed as |triangle| about the mean of the vertices: too large only for lopsided concave radial polygons whose vertex mean lies outside the kernel"),
+ "C02-2b": ("C02", "sub-agent round 2", "sin/cos of the cell angle cached with a 1e-6 tolerance key: score stale (<= 4e-7 relative) after the angle moved by less than 1e-6 on the same state object (fine-step optimisation)"),
+ "C03-2a": ("C03", "sub-agent round 2", "in-cell and periodic loops merged, 'the molecule itself' recognised by position: two distinct copies sharing a centre (site exactly on a symmetry element) lose their pair"),
+ "C03-2b": ("C03", "sub-agent round 2", "score memo keyed on the basis values only: stale after the public shape field is replaced on the same state object"),
+ "C04-2a": ("C04", "sub-agent round 2", "copies within 1e-5 of the upper cell face are snapped to the lower face: off a lattice translation by up to 1e-5 of a cell side; needs a site coordinate within 1e-5 of a face"),
+ "C04-2b": ("C04", "sub-agent round 2", "Cell2::clone rebuilt from Cell2::default(): family silently becomes Monoclinic, the optimiser then moves the angle of mirror-group cells; needs clone then optimise (what the CLI does)"),
+ "C05-2a": ("C05", "sub-agent round 2", "a proposal clamped onto a limit is counted as rejected without evaluation or undo: a value within half a step of a limit is silently moved there while the current score is kept"),
+ "C05-2b": ("C05", "sub-agent round 2", "'same score' tolerance 1e-10 in the acceptance rule: proposals worse by up to 1e-10 are accepted at kT=0 and the reference ratchets down"),
+ "C06-2a": ("C06", "sub-agent round 2", "stall early exit (only with a convergence threshold) breaks out of the inner loop before reset_value(): the last rejected proposal stays in the state"),
+ "C06-2b": ("C06", "sub-agent round 2", "reset_value goes through the clamp: a rejected move on a parameter that started outside its limits is restored to the limit, not bit-for-bit"),
+ "C07-2a": ("C07", "sub-agent round 2", "exp(x) replaced by 1+x+x^2/2 for -0.5<x<0: worse moves over-accepted by up to 3% only for 0.1 < d/kT < 0.5"),
+ "C07-2b": ("C07", "sub-agent round 2", "kt_start replaced by kt_finish when kt_start < kt_finish and no ratio is given: the greedy kt_start=0 idiom runs at kT=kt_finish"),
+ "C08-2a": ("C08", "sub-agent round 2", "clamped proposals counted as rejected and not evaluated: a clamp from just inside a limit is kept without overlap check; returns score None in dense packings (with convergence) or panics"),
+ "C08-2b": ("C08", "sub-agent round 2", "site parameters wrapped by one period instead of clamped: with max_step_size > 2 values leave their range"),
+ "C09-2a": ("C09", "sub-agent round 2", "thread-local one-entry score memo keyed by parameters only (not shape/group): a different state with bit-identical parameters scored next on the same thread gets the previous score; result depends on what ran before"),
+ "C09-2b": ("C09", "sub-agent round 2", "states compared with a 1e-9 tolerance (non-transitive): parallel max() over replicas picks a different best for different rayon split trees when >= 3 replicas form a near-tie chain"),
+ "C10-2a": ("C10", "sub-agent round 2", "scores within 1e-8 compare equal: max() keeps the later of two near-equal replicas even when it is lower"),
+ "C10-2b": ("C10", "sub-agent round 2", "best replica selected after the Monte-Carlo stage and only it is polished: more replications can give a lower score (~4% of (k,k+1) pairs)"),
+ "C11-2a": ("C11", "sub-agent round 2", "SVG matrix entries below 1e-6 written as 0 (absolute): small shapes / coordinates / rotations are drawn on the axis"),
+ "C11-2b": ("C11", "sub-agent round 2", "deserialisation rejects x,y outside [-0.5,0.5) and angle outside [0,2pi): a state clamped onto the closed upper limit is written but cannot be read back"),
+ "C12-2a": ("C12", "sub-agent round 2", "bounding-circle early reject with the radius taken from the first point only: false 'no' for convex radial polygons with unequal radii"),
+ "C12-2b": ("C12", "sub-agent round 2", "end tolerance scaled by the largest coordinate: false 'yes' for gaps of 3e-9..1e-8 at coordinates >= 30; answer changes under a common translation"),
+ "C13-2a": ("C13", "sub-agent round 2", "cutoff shift dropped when cutoff/sigma > 5: potential not zero at the cutoff, values off by <= 2.6e-4 eps"),
+ "C13-2b": ("C13", "sub-agent round 2", "Transform2 * LJ2 rebuilt from LJ2::new: cutoff silently reset to None for the left-operator form only"),
+ "C14-2a": ("C14", "sub-agent round 2", "cos set to 0 when |cos| < 1e-4: wrong B vector for angles within 1e-4 of pi/2 (not exactly pi/2)"),
+ "C14-2b": ("C14", "sub-agent round 2", "area matched on the family (a*b, a*a, sqrt(3)/2 a*a): wrong for deserialised non-monoclinic cells with a generic angle/ratio"),
+ "C15-2a": ("C15", "sub-agent round 2", "positions() skips an image within 1e-12 of an already generated one: fewer than N placements for a site exactly on a symmetry element (reached through the clamp to +-1/2)"),
+ "C15-2b": ("C15", "sub-agent round 2", "wrap by a single conditional +-period shift: wrong for sites more than one cell outside (deserialised), and for glide groups already at one cell"),
+ "C16-2a": ("C16", "sub-agent round 2", "general positions built as products generator*sym of parsed operations whose (2,2) entry is 0: the 4th operation of p2mg and p2gg loses its translation (tables not closed)"),
+ "C16-2b": ("C16", "sub-agent round 2", "family derived from the symbol testing only for 'm': p1g1 and p2gg paired with Monoclinic"),
+ "C17-2a": ("C17", "sub-agent round 2", "parsing of a component stops after a rational constant: '1/2-x' loses the -x; constant-last forms unaffected"),
+ "C17-2b": ("C17", "sub-agent round 2", "brace stripping by byte slicing: panics on \"(\" and on strings starting with '(' and ending in a non-ASCII character"),
+ "C18-2a": ("C18", "sub-agent round 2", "builder setter discards kt_ratio outside 0<r<1: exactly 0 (constant temperature) silently falls back to another schedule"),
+ "C18-2b": ("C18", "sub-agent round 2", "a loop that counts towards convergence skips the cooling step: needs a convergence threshold and stalled non-final loops"),
+ "C19-2a": ("C19", "sub-agent round 2", "set_value early returns do not save the previous value on clamping: same mechanism as seeded/C06 (restore to a stale value). By the property sheet this is C06's subject (why_tests_cant of C06 names 'resetting to a stale value'); C19's check measures a move from the nearest earlier value and deliberately stays silent, C06's check reports it"),
+ "C19-2b": ("C19", "sub-agent round 2", "step floor 1e-4 applied after the cap: with max_step_size < 1e-4 (or 0) moves exceed the maximum from loop 2 on"),
+ "C20-2a": ("C20", "sub-agent round 2", "convergence threshold scaled by max(1,|score|): runs whose score exceeds 1 in magnitude end early although loops improved by more than the threshold"),
+ "C20-2b": ("C20", "sub-agent round 2", "an svg::save error is logged instead of propagated: exit 0 with only the .json when the .svg path is not writable"),
  "orig-C01": ("C01", "revert of fix 1743f8c/a3224f8", "original defect: shell count 1..3 from cell aspect/angle"),
  "orig-C02": ("C02", "revert of fix 9c7cce3", "original defect: pairwise inclusion-exclusion area"),
  "orig-C03": ("C03", "revert of fix 69365b2", "original defect: periodic pairs weighted twice"),
@@ -56,7 +96,7 @@ for d in sorted(glob.glob(os.path.join(HERE, "seeded", "*"))):
         "breaks_property": prop,
         "origin": origin,
         "what_it_needs_to_manifest": needs,
-        "confirmed_by_me": "applied in a scratch worktree under /tmp/wt: the 90-test suite passes with the change; the demonstration fails with it and passes without it (tools/confirm_seed.sh)" if origin == "sub-agent" else "reverse patch of the fix commit; the tree before the fix is the pinned snapshot, whose 90 tests pass",
+        "confirmed_by_me": "applied in a scratch worktree under /tmp/wt: the 90-test suite passes with the change; the demonstration fails with it and passes without it (tools/confirm_seed.sh)" if origin.startswith("sub-agent") else "reverse patch of the fix commit; the tree before the fix is the pinned snapshot, whose 90 tests pass",
         "how_checked": "tools/try_seed.sh: git -C /repo apply patch.diff; ./check <ID> quick; git -C /repo checkout -- .",
         "quick_check_results": runs,
     }
